@@ -77,7 +77,12 @@ Refs(p) == {p[j].tgt.nm : j \in {i \in 1..Len(p) : p[i].k = "br"}}
            \cup UNION {{p[j].ops[m].nm : m \in {q \in 1..Len(p[j].ops) : p[j].ops[q].t = "l"}} : j \in {i \in 1..Len(p) : p[i].k = "ins"}}
            \cup UNION {{p[j].items[m].e.nm : m \in {q \in 1..Len(p[j].items) : p[j].items[q].t = "e" /\ p[j].items[q].e.o = "id"}} : j \in {i \in 1..Len(p) : p[i].k = "data"}}
 
-Start == /\ phase = "build" /\ prog # << >> /\ Refs(prog) \subseteq Labels(prog)
+\* EQU names: usable from the statement after their definition on
+EquNames(p) == {p[j].nm : j \in {i \in 1..Len(p) : p[i].k = "equ"}}
+RefsAt(p, j) == Refs(<<p[j]>>)
+EquBeforeUse(p) == \A j \in 1..Len(p) : \A n \in RefsAt(p, j) \cap EquNames(p) : \E i \in 1..(j - 1) : p[i].k = "equ" /\ p[i].nm = n
+Start == /\ phase = "build" /\ prog # << >> /\ Refs(prog) \subseteq (Labels(prog) \cup EquNames(prog)) /\ EquBeforeUse(prog)
+         /\ Labels(prog) \cap EquNames(prog) = {}
          /\ phase' = "p1" /\ UNCHANGED <<prog, pc, loc, org, bits, sym, equ, lay, out, diag>>
 
 \* sizes pass 1 may assign to statement s (reference: the length of ANY valid encoding / form)
@@ -152,7 +157,7 @@ Inv_C05 == phase = "done" =>
       /\ prog[k].k = "data" => out[k] = ItemsBytes(prog[k].items, DataWidth(prog[k].mn),
                                                    [sym |-> [nm \in Labels(prog) |-> RealAddr(nm)], equ |-> equ, dollar |-> org + OffsetOf(out, k - 1)])
       /\ prog[k].k = "alignb" => (org + OffsetOf(out, k)) % prog[k].v = 0 /\ Len(out[k]) < prog[k].v
-      /\ prog[k].k \in {"label", "equ", "org", "bits"} => out[k] = << >>
+      /\ prog[k].k \in {"label", "equ", "org", "bits", "cfg", "global", "extern"} => out[k] = << >>
 
 Inv_C17 == phase = "done" =>
    \A k \in 1..Len(prog) : prog[k].k = "ins" =>
